@@ -7,3 +7,5 @@ mkdir -p "$VCACHE/mir"
 cd /verif
 python3-vt mirsym/mirgen.py /repo
 python3-vt -c "import sys; sys.path.insert(0,'/verif'); from drivers import replay; print(replay.native_binary())"
+# Kani build cache (first build of the crate under Kani ~4 min)
+(cd /repo && CARGO_NET_OFFLINE=true timeout 1500 cargo kani --target-dir "$VCACHE/target-kani" -Z stubbing --harness c14_uid_from_no_panic --output-format terse > "$VCACHE/kani-setup.log" 2>&1 || true)
